@@ -148,6 +148,52 @@ func init() {
 		}
 		fmt.Fprintf(out, "def dumpSqueezeCond : String := %s\n", leanStr(cond(d.fn("dumpTable2"))))
 		fmt.Fprintf(out, "def compactSqueezeCond : String := %s\n", leanStr(cond(c.fn("compactTable"))))
+		// buildIndexes: is each built overlay stored at the position of its index (`ov[i] = …`)?
+		placed := false
+		ast.Inspect(l.fn("buildIndexes").Body, func(n ast.Node) bool {
+			if as, ok := n.(*ast.AssignStmt); ok && len(as.Lhs) == 1 && len(as.Rhs) == 1 {
+				if ie, ok := as.Lhs[0].(*ast.IndexExpr); ok && isCallTo(as.Rhs[0], "OverlayFor") {
+					x, ok1 := ie.X.(*ast.Ident)
+					ix, ok2 := ie.Index.(*ast.Ident)
+					if ok1 && ok2 && x.Name == "ov" && ix.Name == "i" {
+						placed = true
+					}
+				}
+			}
+			return true
+		})
+		fmt.Fprintf(out, "def overlayPlacedByIndex : Bool := %v\n", placed)
+		// LoadDatabase: after close(channel), are the workers waited for BEFORE their error
+		// value is looked at?
+		closeAt, waitAt, errAt := -1, -1, -1
+		for i, st := range l.fn("LoadDatabase").Body.List {
+			switch st := st.(type) {
+			case *ast.ExprStmt:
+				if isCallTo(st.X, "close") {
+					closeAt = i
+				}
+				if ce, ok := st.X.(*ast.CallExpr); ok && isCallTo(ce, "Wait") && closeAt >= 0 && waitAt < 0 {
+					waitAt = i
+				}
+			case *ast.IfStmt:
+				if closeAt >= 0 && errAt < 0 {
+					uses := false
+					ast.Inspect(st.Cond, func(m ast.Node) bool {
+						if id, ok := m.(*ast.Ident); ok && id.Name == "errVal" {
+							uses = true
+						}
+						return true
+					})
+					if uses {
+						errAt = i
+					}
+				}
+			}
+		}
+		if closeAt < 0 || waitAt < 0 || errAt < 0 {
+			return fmt.Errorf("LoadDatabase: close(channel) / wg.Wait() / errVal check not found (%d %d %d)", closeAt, waitAt, errAt)
+		}
+		fmt.Fprintf(out, "def waitBeforeErrCheck : Bool := %v\n", waitAt < errAt)
 		out.WriteString("\nend Gsu.Gen.Dump\n")
 		return nil
 	})
